@@ -21,6 +21,31 @@ type tracer struct {
 	out    map[string]bool
 	facts  []Cond // branch facts assumed by the phi edges taken so far (within one function)
 	factFn *ssa.Function
+	keys   map[string]bool // when non-nil: origins of the keys of the map lookups passed through
+}
+
+// originsAndKeys: like origins, and additionally the origins of every map key used by a lookup on the way (resolved in
+// the same calling context, so a key handed down through helpers is traced back to the entry point).
+func (e *Engine) originsAndKeys(v ssa.Value) (origins, keys []string) {
+	t := &tracer{e: e, seen: map[string]bool{}, out: map[string]bool{}, keys: map[string]bool{}}
+	t.trace(v, nil, 0, "")
+	for k := range t.out {
+		origins = append(origins, k)
+	}
+	for k := range t.keys {
+		keys = append(keys, k)
+	}
+	sort.Strings(origins)
+	sort.Strings(keys)
+	return
+}
+
+func (t *tracer) lookupKey(lk *ssa.Lookup, ctx []callCtx, depth int) {
+	if t.keys == nil {
+		return
+	}
+	sub := &tracer{e: t.e, seen: map[string]bool{}, out: t.keys}
+	sub.trace(lk.Index, ctx, depth+1, "")
 }
 
 // edgeFacts: conditions that hold when control flows from pred to succ.
@@ -167,6 +192,7 @@ func (t *tracer) trace(v ssa.Value, ctx []callCtx, depth int, prefix string) {
 			}
 		}
 		if lk, ok := x.Tuple.(*ssa.Lookup); ok && x.Index == 0 {
+			t.lookupKey(lk, ctx, depth)
 			t.trace(lk.X, ctx, depth+1, prefix+"mapval-of ")
 			return
 		}
@@ -178,6 +204,7 @@ func (t *tracer) trace(v ssa.Value, ctx []callCtx, depth int, prefix string) {
 	case *ssa.Call:
 		t.traceCall(x, 0, ctx, depth, prefix)
 	case *ssa.Lookup:
+		t.lookupKey(x, ctx, depth)
 		t.trace(x.X, ctx, depth+1, prefix+"mapval-of ")
 	case *ssa.UnOp:
 		if x.Op != token.MUL {
